@@ -122,10 +122,25 @@ func (r *Runner) Resolve(ctx context.Context, v Expression) (interface{}, error)
 func try2Float64(v interface{}) interface{} {
 	switch n := v.(type) {
 	case *decimal.Big:
-		r, _ := n.Float64()
-		return r
+		return decimalToFloat64(n)
 	}
 	return v
+}
+
+// decimalToFloat64 returns the float64 nearest to n. (Big.Float64 takes shortcuts that are
+// not correctly rounded, flushes values below 1e-308 to 0 and loses the sign of -Inf.)
+func decimalToFloat64(n *decimal.Big) float64 {
+	if n.IsNaN(0) {
+		return math.NaN()
+	}
+	if n.IsInf(0) {
+		if n.Signbit() {
+			return math.Inf(-1)
+		}
+		return math.Inf(1)
+	}
+	f, _ := strconv.ParseFloat(n.String(), 64)
+	return f
 }
 
 func (r *Runner) resolve(ctx context.Context, v Expression) (res interface{}, err error) {
